@@ -5,6 +5,7 @@ package vh
 import (
 	"fmt"
 	"strings"
+	"time"
 )
 
 func init() { registry["C03"] = &propDef{e1: c03Scenarios} }
@@ -122,6 +123,23 @@ func c03Scenarios(tier string) []*Scenario {
 		add(fmt.Sprintf("signal-%d", sg), fmt.Sprintf("a is configured with shutdown.signal %d", sg),
 			projectYAML(nil, PC{Name: "a", Lines: []string{"shutdown:", fmt.Sprintf("  signal: %d", sg)}}, PC{Name: "b"}),
 			map[string]*ProcScript{"a": daemon, "b": daemon}, 1, shut)
+	}
+	// 15. a daemon (launcher exited, reported Launched) with a stop command and a readiness probe that has not
+	// succeeded yet, while another process waits for it with process_healthy
+	for _, ordered := range []bool{false, true} {
+		id := "daemon-awaited-healthy"
+		if ordered {
+			id += "-ordered"
+		}
+		launchedA := func(w *World) bool { return w.lastStat["a"] == "Launched" }
+		sc := add(id, "daemon a (stop command, readiness probe still failing) is awaited by b (process_healthy) when the shutdown arrives",
+			projectYAML(nil, PC{Name: "a", Lines: []string{"is_daemon: true", "shutdown:", "  command: \"stop-a\"", "  timeout_seconds: 2",
+				"readiness_probe:", "  exec:", "    command: \"probe-ready-a\"", "  period_seconds: 1", "  failure_threshold: 30"}},
+				PC{Name: "b", Deps: map[string]string{"a": "process_healthy"}}),
+			map[string]*ProcScript{"a": {Launches: exits(0)}, "b": daemon}, 2, []APICall{{Op: "shutdown", When: launchedA}})
+		sc.Aux = map[string][]string{"stop-a": {"ok"}, "probe-ready-a": {"fail"}}
+		sc.Ordered = ordered
+		sc.Horizon = 30 * time.Second
 	}
 	if tier == "thorough" {
 		add("three", "three independent processes, one restarting", projectYAML(nil, PC{Name: "a"}, PC{Name: "b", Restart: "always"}, PC{Name: "c", Deps: map[string]string{"a": "process_started"}}),
